@@ -846,8 +846,15 @@ func (graph *Graph) unwatchNode(sn ISentinel, input INode) {
 // stabilization methods
 //
 
+// ensureNotStabilizing claims the graph for a stabilization pass, or reports that one is
+// already in progress.
+//
+// The check and the claim are a single compare-and-swap. As two separate atomic
+// operations -- load the status here, store StatusStabilizing in stabilizeStart -- two
+// callers could both observe StatusNotStabilizing before either stored, and both went on
+// to run node functions of the same graph at once.
 func (graph *Graph) ensureNotStabilizing(ctx context.Context) error {
-	if atomic.LoadInt32(&graph.status) != StatusNotStabilizing {
+	if !atomic.CompareAndSwapInt32(&graph.status, StatusNotStabilizing, StatusStabilizing) {
 		TracePrintf(ctx, "stabilize; already stabilizing, cannot continue")
 		return ErrAlreadyStabilizing
 	}
@@ -855,6 +862,8 @@ func (graph *Graph) ensureNotStabilizing(ctx context.Context) error {
 }
 
 func (graph *Graph) stabilizeStart(ctx context.Context) context.Context {
+	// the status has normally been claimed by ensureNotStabilizing already; it is stored
+	// again for callers that drive a pass by hand and start here
 	atomic.StoreInt32(&graph.status, StatusStabilizing)
 	// cleared so that a panic raised before any node is recomputed does not blame whichever
 	// node happened to be last in the previous pass
